@@ -430,7 +430,13 @@ func lastAspect(f *jpFiring) *aspectRun {
 	return &f.Aspects[len(f.Aspects)-1]
 }
 
-func checkC06(sc *Scenario, st *Stats) *Violation {
+func checkC06(sc *Scenario, st *Stats) *Violation { return c06Laws(sc, st, true) }
+
+// c06Laws checks the gas laws on one run; with sweep it re-checks them on variants
+// of the scenario in which a top-level call is given EXACTLY what its pre join
+// point burns (the Aspects leave 0), one more, and exactly what the whole frame
+// consumes (the post join point leaves 0).
+func c06Laws(sc *Scenario, st *Stats, sweep bool) *Violation {
 	an, bad := analyseJP(sc, ArtelaOpts{})
 	if bad != "" {
 		st.Exclude("panic-or-unbalanced(C03/C18)")
@@ -658,6 +664,40 @@ func checkC06(sc *Scenario, st *Stats) *Violation {
 					return violf("metamorphic-burn", "invocation %d: leftover gas without aspects %d, with aspects %d, reported burns %d", i, b, a, burnsPerInv[i])
 				}
 			}
+		}
+	}
+	if sweep {
+		variants := 0
+		for _, F := range an.fl.Frames {
+			if F.Kind != CALL || !F.Top || F.Depth != 0 || variants >= 3 {
+				continue
+			}
+			pre := an.pre[F]
+			if len(pre) != 1 || pre[0].Err != "" {
+				continue
+			}
+			la := lastAspect(pre[0])
+			if la == nil || la.GasOut >= F.Gas {
+				continue
+			}
+			burn := F.Gas - la.GasOut
+			gases := []uint64{burn, burn + 1}
+			if att := an.byFrame[F]; att != nil && att.RetGasOK && att.Returned > 0 && att.Returned < F.Gas {
+				gases = append(gases, F.Gas-att.Returned)
+			}
+			for _, g := range gases {
+				v := sc.Clone()
+				v.Invs[F.Inv].Gas = g
+				variants++
+				if viol := c06Laws(v, NewStats("C06"), false); viol != nil {
+					viol.Fingerprint = "exact-gas/" + viol.Fingerprint
+					viol.Msg = fmt.Sprintf("variant with invocation %d given exactly %d gas (its pre join point burns %d): %s", F.Inv, g, burn, viol.Msg)
+					return viol
+				}
+			}
+		}
+		if variants > 0 {
+			addLab("exact-gas-variants")
 		}
 	}
 	nontrivial := burned && observed
